@@ -60,6 +60,8 @@ type Msg struct {
 	respOut     any // caller's response struct
 	Dup         bool
 	Marked      bool // free for the policy: the message has been counted by a macro
+	LateCopyMs  int  // set by the policy: when this request is delivered, a copy of it is delivered again that many ms later (a duplicate that lingered in the network)
+	Late        bool // this is such a copy
 }
 
 func (m *Msg) String() string {
@@ -501,6 +503,12 @@ func (n *Net) Step() int {
 			}
 			if f := n.startDelivery(m, target.Inst); f != nil {
 				starts = append(starts, f)
+			}
+			if m.LateCopyMs > 0 && m.Pipe == nil && !m.Dup {
+				d := &Msg{ID: m.ID, Kind: m.Kind, From: m.From, FromGen: m.FromGen, To: m.To, Req: CopyReq(m.Req), Data: m.Data, Term: m.Term,
+					done: make(chan struct{}), Dup: true, Late: true, Decided: true, LatReq: true, LatResp: true, SentAt: m.SentAt, ReadyAt: now + int64(m.LateCopyMs)}
+				n.reqQ = append(n.reqQ, d)
+				m.LateCopyMs = 0
 			}
 			if v == VDuplicate && m.Pipe == nil && !m.Dup {
 				d := &Msg{ID: m.ID, Kind: m.Kind, From: m.From, FromGen: m.FromGen, To: m.To, Req: CopyReq(m.Req), Data: m.Data, Term: m.Term,
